@@ -397,7 +397,10 @@ class ProxyFile:
     def __init__(self, seam, fd, mode, encoding, errors, newline, name, closefd):
         self._seam, self._fd, self.mode, self.name = seam, fd, mode, name
         self._binary = "b" in mode
-        self._enc = encoding or "utf-8"
+        if encoding in (None, "locale"):
+            import locale
+            encoding = locale.getencoding() if hasattr(locale, "getencoding") else "utf-8"
+        self._enc = encoding
         self._errors = errors or "strict"
         self._closefd = closefd
         self.closed = False
